@@ -101,9 +101,15 @@ TDelete    == IsEvent("delete")    /\ Ev.pod \in Pods /\ Delete(Ev.pod) /\ ObsOK
 TAdd       == /\ IsEvent("add") /\ Ev.pod \in Pods /\ AllocInUniverse(Ev.alloc)
               /\ AddAssigned(Ev.pod, EntriesIn(Ev.alloc)) /\ ObsOK
 
+\* C19 (device part): the scheduler restarts.  The harness persisted every allocation held by a bound pod through the
+\* real pre-bind code, dropped the live cache and rebuilt a fresh one only through the informer handlers from the
+\* surviving Device / pod objects (any interleaving, duplicate adds, same-object updates).  obs is the projection of
+\* the FRESH cache: it must be the ledgers of the scheduler that made the allocations, minus what was only reserved.
+TRestart   == IsEvent("restart") /\ Restart /\ ObsOK
+
 TraceInit == \E i \in Starts : TraceStart(i) /\ Init
 TraceNext == \/ TInventory \/ TInvalidate \/ TCreate \/ TAlloc \/ TUnreserve \/ TBind \/ TTouch \/ TReAdd
-             \/ TReDelete \/ TAnnotate \/ TTerminate \/ TUnassign \/ TDelete \/ TAdd
+             \/ TReDelete \/ TAnnotate \/ TTerminate \/ TUnassign \/ TDelete \/ TAdd \/ TRestart
              \/ (SegDone /\ UNCHANGED vars)
 TraceSpec == TraceInit /\ [][TraceNext]_<<vars, tvars>>
 =============================================================================
